@@ -378,7 +378,7 @@ fn const_choice(op: BinOperator, kind: u8, which: u8, right: bool) -> Option<Var
     if which == 2 && shift && right { return Some(Variable::Int(64)); }
     Some(Variable::Int(c))
 }
-fn partial_fold(op: BinOperator, kind: u8, which: u8, const_on_right: bool) {
+fn partial_fold(op: BinOperator, kind: u8, which: u8, const_on_right: bool, as_local: bool) {
     if !admits(op, kind) {
         return;
     }
@@ -388,21 +388,30 @@ fn partial_fold(op: BinOperator, kind: u8, which: u8, const_on_right: bool) {
     crate::instruction::verif_gate::allow_binops(crate::instruction::verif_gate::b(op));
     crate::instruction::verif_gate::allow_unops(crate::instruction::verif_gate::u(UnaryOperator::Indirection));
     let mut interp = Interpreter::without_stdlib();
+    // the non-constant operand: `*cell`, or a local variable `x` of a declared type (a parameter)
     let cell = new_cell(Type::Any, if const_on_right { a.clone() } else { b.clone() });
+    let opaque = || if as_local { local("x", Type::Any) } else { hidden(&cell) };
     let (lhs, rhs) = if const_on_right {
-        (hidden(&cell), Instruction::Variable(b.clone()))
+        (opaque(), Instruction::Variable(b.clone()))
     } else {
-        (Instruction::Variable(a.clone()), hidden(&cell))
+        (Instruction::Variable(a.clone()), opaque())
     };
     let want = expected(op, a.clone(), b.clone());
     let ins = BinOperation { lhs, rhs, op };
     let folded = {
         let mut lv = LocalVariables::new(&interp);
+        lv.insert("x".into(), Type::Any.into());
         let f = ins.recreate(&mut lv);
         std::mem::forget(lv);
         f
     };
-    let is_hidden = |i: &Instruction| matches!(i, Instruction::UnaryOperation(u) if matches!(u.op, UnaryOperator::Indirection) && matches!(&u.instruction, Instruction::Variable(Variable::Mut(c)) if Arc::ptr_eq(c, &cell)));
+    let is_hidden = |i: &Instruction| {
+        if as_local {
+            matches!(i, Instruction::LocalVariable(name, _) if name.len() == 1 && name.as_bytes()[0] == b'x')
+        } else {
+            matches!(i, Instruction::UnaryOperation(u) if matches!(u.op, UnaryOperator::Indirection) && matches!(&u.instruction, Instruction::Variable(Variable::Mut(c)) if Arc::ptr_eq(c, &cell)))
+        }
+    };
     let cst = if const_on_right { b } else { a };
     match folded {
         // kept as the same operation on (`*cell`, constant): its meaning is the run-time dispatch
@@ -424,13 +433,15 @@ fn partial_fold(op: BinOperator, kind: u8, which: u8, const_on_right: bool) {
     }
 }
 fn pfold_right(op: BinOperator, kind: u8, which: u8) {
-    partial_fold(op, kind, which, true)
+    partial_fold(op, kind, which, true, false);
+    partial_fold(op, kind, which, true, true);
 }
 fn pfold_left(op: BinOperator, kind: u8, which: u8) {
-    partial_fold(op, kind, which, false)
+    partial_fold(op, kind, which, false, false);
+    partial_fold(op, kind, which, false, true);
 }
 
-stubbed! { #[cfg(feature = "verif_thorough")] pub fn t_fold_right_a() { each_const!(pfold_right; Add, Subtract, Multiply); kani::cover!(true); } }
+stubbed! { pub fn t_fold_right_a() { each_const!(pfold_right; Add, Subtract, Multiply); kani::cover!(true); } }
 stubbed! { pub fn t_fold_right_b() { each_const!(pfold_right; Divide, Modulo, Pow); kani::cover!(true); } }
 stubbed! { pub fn t_fold_right_c() { each_const!(pfold_right; LShift, RShift, BitwiseAnd); kani::cover!(true); } }
 stubbed! { #[cfg(feature = "verif_thorough")] pub fn t_fold_right_d() { each_const!(pfold_right; BitwiseOr, Xor, Equal, NotEqual); kani::cover!(true); } }
